@@ -63,6 +63,18 @@ pub struct StyleD {
 
 impl StyleD {
     pub fn build<C: Col>(&self) -> PrimitiveStyle<C> {
+        // the shorthand constructors where they describe the same style (odd widths / fill-only),
+        // the builder everywhere else: both public ways to make a style are exercised
+        if !self.dotted && self.align == 1 {
+            if let (None, Some(sc)) = (self.fill, self.stroke) {
+                if self.width % 2 == 1 {
+                    return PrimitiveStyle::with_stroke(C::nth(sc), self.width);
+                }
+            }
+            if let (Some(fc), None, 0) = (self.fill, self.stroke, self.width) {
+                return PrimitiveStyle::with_fill(C::nth(fc));
+            }
+        }
         let mut b = PrimitiveStyleBuilder::new().stroke_width(self.width).stroke_alignment(match self.align {
             0 => StrokeAlignment::Inside,
             1 => StrokeAlignment::Center,
@@ -397,6 +409,22 @@ fn alignment_of(a: u8) -> Alignment {
 impl TextD {
     /// builds the character style for `font` and hands the Text to `f`
     pub fn with_text<C: Col, R>(&self, font: &MonoFont<'_>, f: impl FnOnce(&Text<'_, MonoTextStyle<'_, C>>) -> R) -> R {
+        let default_ts = self.align == 0 && self.baseline == 3 && self.lh == LhD::Percent(100);
+        let plain = self.bg.is_none() && self.underline == DecoD::None && self.strike == DecoD::None;
+        // the shorthand constructors (MonoTextStyle::new, Text::new / with_baseline / with_alignment)
+        // where they describe the same text, chosen by the parity of the position; the builders otherwise
+        if let (Some(c), true, true) = (self.text_color, plain, self.at.1 % 2 == 0) {
+            let style = MonoTextStyle::new(font, C::nth(c));
+            if default_ts {
+                return f(&Text::new(&self.text, pt(self.at), style));
+            }
+            if self.align == 0 && self.lh == LhD::Percent(100) {
+                return f(&Text::with_baseline(&self.text, pt(self.at), style, baseline_of(self.baseline)));
+            }
+            if self.baseline == 3 && self.lh == LhD::Percent(100) {
+                return f(&Text::with_alignment(&self.text, pt(self.at), style, alignment_of(self.align)));
+            }
+        }
         let mut b = MonoTextStyleBuilder::<C>::new().font(font);
         if let Some(c) = self.text_color {
             b = b.text_color(C::nth(c));
